@@ -2,7 +2,8 @@
    Statements only; proofs in Proofs/RefineProofs.v (and ColProofs.v for collocation). *)
 From Coq Require Import ZArith QArith Qcanon List Lia Bool.
 From RV Require Import Base.Num Base.PyList Base.Vec Base.Poly Expr Ocp Rows Mech.Grid Mech.Intg
-     Mech.Sampling Mech.Refine Spec.SpecColloc Inst Proofs.QcInst Proofs.RefineProofs Proofs.ColProofs.
+     Mech.Sampling Mech.Refine Mech.Shooting Mech.Colloc Spec.SpecColloc Inst Proofs.QcInst Proofs.RefineProofs Proofs.ColProofs
+     Proofs.QuadProofs Proofs.DenseDC.
 Import ListNotations.
 Local Open Scope nat_scope.
 
@@ -50,6 +51,28 @@ Print Assumptions C08_collocation_power_basis_rescaling.
 (* non-vacuity: one RK4 step of x' = x from x = 1 with DT = 1/2 over Qc: the polynomial ends at
    the RK4 end state 211/128 = 1 + 1/2 + 1/8 + 1/48 + 1/384 *)
 Local Existing Instance QcOps.
+(* DirectCollocation: the stored dense-output columns of an integrator step (power-basis coefficients
+   of the Lagrange basis over [0]+tau, rescaled by dt^p, combined with the step's start and helper
+   states) evaluate, at local time dt*node_m, to state m of the step: refined samples interpolate the
+   collocation states, for any pairwise distinct points and any step length *)
+Theorem C08_collocation_dense_output_interpolates :
+  forall (F : Type) (OF : Ops F), FieldLaws OF ->
+  forall (nodes : list F) (dt : F) (Xs : list (list F)) (m i : nat),
+    distinct nodes -> dt <> o0 -> length Xs = length nodes -> m < length nodes ->
+    vnth (dense_eval (dense_cols nodes dt Xs) (dt *! nth m nodes o0)) i = vnth (nth m Xs []) i.
+Proof. intros F OF Fl nodes dt Xs m i H1 H2 H3 H4. exact (dense_cols_interpolates Fl nodes dt Xs m i H1 H2 H3 H4). Qed.
+Print Assumptions C08_collocation_dense_output_interpolates.
+
+(* ... and these columns are what the model of DirectCollocation stores for refined sampling *)
+Theorem C08_model_poly_is_dense_cols :
+  forall (F : Type) (OF : Ops F) (oc : ocp) (pt : point F),
+    L_poly (dc_lists oc pt) =
+    map (fun ki => dense_cols (tau_root (map of_Q (m_tau (o_method oc)))) (dt_k oc pt (fst ki))
+                              (Xc_full pt (fst ki) (snd ki)))
+        (steps oc).
+Proof. intros F OF oc pt. exact (dc_poly_is_dense_cols oc pt). Qed.
+Print Assumptions C08_model_poly_is_dense_cols.
+
 Example C08_nonvacuous :
   let f := {| s_ode := fun x (_ : Qc) => x; s_quad := fun _ _ => [] |} in
   let r := @intg_rk Qc QcOps f [Q2Qc 1] (Q2Qc 0) (Q2Qc (1#2)) (Q2Qc 1) in
